@@ -298,6 +298,20 @@ func init() {
 			t := args[0].(*Term)
 			return IntC(in.concretize(st, t, -1<<40, 1<<40))
 		},
+		// vEncInt(tag string, v int) string: an opaque string that carries the integer v (injective per tag)
+		"vEncInt": func(in *Interp, st *State, fr *Frame, fn *ssa.Function, args []Value) Value {
+			tag := mustStr(args[0], "vEncInt tag")
+			return StrV{Fmt: &OpaqueFmt{Format: "enc:" + tag, Args: []Value{args[1]}}}
+		},
+		// vDecInt(tag, s string) int: the integer carried by a vEncInt string
+		"vDecInt": func(in *Interp, st *State, fr *Frame, fn *ssa.Function, args []Value) Value {
+			tag := mustStr(args[0], "vDecInt tag")
+			s := args[1].(StrV)
+			if s.Fmt == nil || s.Fmt.Format != "enc:"+tag {
+				panic(unsupported("vDecInt: not a vEncInt(" + tag + ") string"))
+			}
+			return s.Fmt.Args[0]
+		},
 		// vLenAny(x any) int: length of the slice held in x
 		"vLenAny": func(in *Interp, st *State, fr *Frame, fn *ssa.Function, args []Value) Value {
 			sl, ok := args[0].(IfaceV).V.(SliceV)
